@@ -32,6 +32,7 @@ func init() {
 			{ID: "C12.R14", Text: "a transient end stays transient after a rebalance: Rebalance closes the streams with Close(false), so the flag the end listener reads is not left raised (same rule as C15.R20)", Run: c11r3},
 			{ID: "C12.R16", Text: "below 5.5.0 every stream end of the next session is handled: the serial close asks every assigned vBucket (its loop is left only by its bound test) and lowers its closing flag on every way out, so no later end waits for a token nobody puts (same rule as C18.R8)", Run: serialCloseTokens},
 			{ID: "C12.R17", Text: "a re-open answered with a rollback loses nothing above the position reached, so a finite stream stops only after every event up to its bound was delivered: the catch-up filter skips ⇔ need ∧ seq ≤ F and the first event beyond F ends it without being swallowed (same rule as C08.R5)", Run: c08r5},
+			{ID: "C12.R18", Text: "every end of a vBucket stream reaches the end listener that counts and re-opens: the functions handed to the observer constructor are method values of the stream (same rule as C16.R25)", Run: observerCallbacksBound},
 			{ID: "C12.R15", Text: "every transient end gets its own re-open request: openStream waits for nothing but its request and never reports success without making it (same rule as C11.R26)", Run: openDoesNotWait},
 			{ID: "C12.R6", Text: "a reopened vBucket keeps being streamed: the observer that reopen reuses has its delivery/end switches thrown only by Stream.Close (same rule as C03.R6)", Run: switchOwner},
 		},
